@@ -728,3 +728,154 @@ Example ex_monitor_rejects_shared :
   monitor (IOps [(0, OpGet KScript 1 [r1]); (1, OpGet KScript 2 [r1; r2])])
           (OOps [RAddr (private_socket_addr r1); RAddr (private_socket_addr r1)] [] []) = false.
 Proof. vm_compute. reflexivity. Qed.
+
+(* ------------------------------------------------------------------ what an accepting monitor means
+   (for ANY observed trace, not only the model's): gets are stable and injective, a lookup
+   of an address an earlier get returned answers that get's key. *)
+Definition consistent (sn : seen) : Prop :=
+  (forall kd k a a', In (kd, k, a) sn -> In (kd, k, a') sn -> a = a') /\
+  (forall kd k k' a, In (kd, k, a) sn -> In (kd, k', a) sn -> k = k').
+
+Lemma seen_key_some sn kd k a : seen_key sn kd k = Some a -> In (kd, k, a) sn.
+Proof.
+  unfold seen_key.
+  destruct (find (fun e => kind_eqb (fst (fst e)) kd && N.eqb (snd (fst e)) k) sn) as [[[kd0 k0] a0]|] eqn:F;
+    [|discriminate].
+  intros H. inversion H; subst. apply find_some in F as [Hin Hc]. cbn in Hc.
+  apply andb_prop in Hc as [H1 H2]. apply kind_eqb_iff in H1. apply N.eqb_eq in H2. now subst.
+Qed.
+
+Lemma seen_key_none sn kd k a : seen_key sn kd k = None -> ~ In (kd, k, a) sn.
+Proof.
+  unfold seen_key.
+  destruct (find (fun e => kind_eqb (fst (fst e)) kd && N.eqb (snd (fst e)) k) sn) eqn:F; [discriminate|].
+  intros _ Hin. pose proof (find_none _ _ F _ Hin) as Hc. cbn in Hc.
+  now rewrite kind_eqb_refl, N.eqb_refl in Hc.
+Qed.
+
+Lemma seen_addr_some sn kd a k : seen_addr sn kd a = Some k -> In (kd, k, a) sn.
+Proof.
+  unfold seen_addr.
+  destruct (find (fun e => kind_eqb (fst (fst e)) kd && bytes_eqb (snd e) a) sn) as [[[kd0 k0] a0]|] eqn:F;
+    [|discriminate].
+  intros H. inversion H; subst. apply find_some in F as [Hin Hc]. cbn in Hc.
+  apply andb_prop in Hc as [H1 H2]. apply kind_eqb_iff in H1. apply bytes_eqb_eq in H2. now subst.
+Qed.
+
+Lemma seen_addr_none sn kd a k : seen_addr sn kd a = None -> ~ In (kd, k, a) sn.
+Proof.
+  unfold seen_addr.
+  destruct (find (fun e => kind_eqb (fst (fst e)) kd && bytes_eqb (snd e) a) sn) eqn:F; [discriminate|].
+  intros _ Hin. pose proof (find_none _ _ F _ Hin) as Hc. cbn in Hc.
+  now rewrite kind_eqb_refl, bytes_eqb_refl in Hc.
+Qed.
+
+Lemma event_ok_get sn kd key c sa :
+  event_ok sn (OpGet kd key c, RAddr sa) = true ->
+  (forall a', In (kd, key, a') sn -> consistent sn -> octets_of sa = a') /\
+  (forall k', In (kd, k', octets_of sa) sn -> consistent sn -> k' = key) /\
+  sa = private_socket_addr (octets_of sa).
+Proof.
+  cbn [event_ok]. intros H.
+  apply andb_prop in H as [H _]. apply andb_prop in H as [H H3]. apply andb_prop in H as [H1 H2].
+  repeat split.
+  - intros a' Hin [C1 _]. destruct (seen_key sn kd key) as [a''|] eqn:E.
+    + apply bytes_eqb_eq in H1. apply seen_key_some in E. rewrite H1. eapply C1; eauto.
+    + exfalso. eapply seen_key_none; eauto.
+  - intros k' Hin [_ C2]. destruct (seen_addr sn kd (octets_of sa)) as [k''|] eqn:E.
+    + apply N.eqb_eq in H2. apply seen_addr_some in E. rewrite <- H2. eapply C2; eauto.
+    + exfalso. eapply seen_addr_none; eauto.
+  - destruct sa as [ip p|o p f s]; cbn in H3; [discriminate|].
+    apply andb_prop in H3 as [H3 Hs]. apply andb_prop in H3 as [H3 Hf]. apply andb_prop in H3 as [Ho Hp].
+    apply N.eqb_eq in Hs, Hf, Hp. cbn [octets_of]. unfold private_socket_addr. congruence.
+Qed.
+
+Lemma push_consistent sn e : consistent sn -> event_ok sn e = true -> consistent (push_seen sn e).
+Proof.
+  intros HC H. destruct e as [[kd key c|kd a|sa|sa] x]; cbn [push_seen]; try exact HC.
+  destruct x as [sa| | | | |]; try exact HC.
+  destruct (event_ok_get _ _ _ _ _ H) as [G1 [G2 _]]. destruct HC as [C1 C2]. split.
+  - intros kd0 k a a' [E1|I1] [E2|I2].
+    + congruence.
+    + inversion E1; subst. apply G1; [exact I2|split; assumption].
+    + inversion E2; subst. symmetry. apply G1; [exact I1|split; assumption].
+    + eapply C1; eauto.
+  - intros kd0 k k' a [E1|I1] [E2|I2].
+    + congruence.
+    + inversion E1; subst. symmetry. apply G2; [exact I2|split; assumption].
+    + inversion E2; subst. apply G2; [exact I1|split; assumption].
+    + eapply C2; eauto.
+Qed.
+
+Lemma trace_ok_app sn t1 t2 : trace_ok sn (t1 ++ t2) = true ->
+  trace_ok sn t1 = true /\ trace_ok (fold_left push_seen t1 sn) t2 = true.
+Proof.
+  revert sn. induction t1 as [|e t1 IH]; intros sn H; [auto|].
+  cbn [app trace_ok fold_left] in *. apply andb_prop in H as [H1 H2].
+  destruct (IH _ H2) as [A B]. rewrite H1, A. auto.
+Qed.
+
+Lemma trace_consistent t : forall sn, consistent sn -> trace_ok sn t = true ->
+  consistent (fold_left push_seen t sn).
+Proof.
+  induction t as [|e t IH]; intros sn HC H; [exact HC|].
+  cbn [trace_ok fold_left] in *. apply andb_prop in H as [H1 H2].
+  apply IH; [now apply push_consistent|exact H2].
+Qed.
+
+Lemma fold_push_mono t : forall sn x, In x sn -> In x (fold_left push_seen t sn).
+Proof.
+  induction t as [|e t IH]; intros sn x H; [exact H|]. cbn [fold_left]. apply IH.
+  destruct e as [[kd key c| | |] [sa| | | | |]]; cbn [push_seen]; auto. now right.
+Qed.
+
+Lemma fold_push_get t : forall sn kd key c sa,
+  In (OpGet kd key c, RAddr sa) t -> In (kd, key, octets_of sa) (fold_left push_seen t sn).
+Proof.
+  induction t as [|e t IH]; intros sn kd key c sa H; [destruct H|].
+  cbn [fold_left]. destruct H as [->|H]; [|now eapply IH; eauto].
+  apply fold_push_mono. cbn [push_seen]. now left.
+Qed.
+
+Lemma consistent_nil : consistent [].
+Proof. split; intros; contradiction. Qed.
+
+Lemma trace_ok_in sn t e : trace_ok sn t = true -> In e t ->
+  exists t1 t2, t = t1 ++ e :: t2 /\ event_ok (fold_left push_seen t1 sn) e = true.
+Proof.
+  intros H Hin. apply in_split in Hin as [t1 [t2 ->]]. exists t1, t2. split; [reflexivity|].
+  apply trace_ok_app in H as [_ H]. cbn [trace_ok] in H. now apply andb_prop in H as [H _].
+Qed.
+
+(* gets in an accepted trace: same key <-> same answer (on one map) *)
+Lemma monitor_sound_gets t kd k1 c1 x1 k2 c2 x2 :
+  trace_ok [] t = true ->
+  In (OpGet kd k1 c1, RAddr x1) t -> In (OpGet kd k2 c2, RAddr x2) t ->
+  (k1 = k2 <-> x1 = x2).
+Proof.
+  intros H I1 I2.
+  pose proof (trace_consistent t [] consistent_nil H) as [C1 C2].
+  pose proof (fold_push_get t [] _ _ _ _ I1) as J1. pose proof (fold_push_get t [] _ _ _ _ I2) as J2.
+  destruct (trace_ok_in _ _ _ H I1) as [? [? [_ E1]]]. destruct (trace_ok_in _ _ _ H I2) as [? [? [_ E2]]].
+  apply event_ok_get in E1 as [_ [_ P1]]. apply event_ok_get in E2 as [_ [_ P2]].
+  split.
+  - intros ->. rewrite P1, P2. f_equal. eapply C1; eauto.
+  - intros ->. eapply C2; eauto.
+Qed.
+
+(* a typed lookup in an accepted trace, after a get that returned that address, answers its key *)
+Lemma monitor_sound_lookup t1 t2 kd key c a r :
+  trace_ok [] (t1 ++ (OpLookup kd a, RKey r) :: t2) = true ->
+  In (OpGet kd key c, RAddr (private_socket_addr a)) t1 ->
+  r = Some key.
+Proof.
+  intros H Hin. pose proof H as H0. apply trace_ok_app in H as [Ht1 H].
+  cbn [trace_ok] in H. apply andb_prop in H as [H _]. cbn [event_ok] in H.
+  apply andb_prop in H as [_ H].
+  pose proof (trace_consistent t1 [] consistent_nil Ht1) as [_ C2].
+  pose proof (fold_push_get t1 [] _ _ _ _ Hin) as J. rewrite octets_psa in J.
+  destruct (seen_addr (fold_left push_seen t1 []) kd a) as [k'|] eqn:E.
+  - apply seen_addr_some in E. destruct r as [k|]; cbn in H; [|discriminate].
+    apply N.eqb_eq in H. subst. f_equal. eapply C2; eauto.
+  - exfalso. eapply seen_addr_none; eauto.
+Qed.
